@@ -374,7 +374,11 @@ Definition open_dgram (key : option Z) (d : dgram) : res (list wmsg) :=
     match key with
     | Some k =>
         match d_body d with
-        | Sealed k' sh p => if (k =? k') && header_eqb sh h && (h_len h =? len p) then Ok p else Err EOther
+        | Sealed k' sh p =>
+            (* datagram[20 : 20+length+16] is handed to AES-GCM: the slice is the whole ciphertext as
+               soon as the announced length is at least the payload's; from_bytes refuses when
+               20+length exceeds the datagram, i.e. when length > |payload| + 16 *)
+            if (k =? k') && header_eqb sh h && (len p <=? h_len h) && (h_len h <=? len p + 16) then Ok p else Err EOther
         | _ => Err EOther
         end
     | None =>
